@@ -64,7 +64,7 @@ def handleLex (j : Json) : Except String Json := do
   pure <| Json.mkObj [("toks", toksToJson ts), ("wf", .bool (wf ts)), ("level0", .bool (level0 ts)),
     ("why", .str (level0Why ts)), ("roundtrip", .bool (render ts = s.toList)),
     ("semis", .num ⟨((ts.filter isSemi).length : Int), 0⟩),
-    ("hasCode", .bool (ts.any (fun t => isCodeTok t && !isWhite t)))]
+    ("hasCode", .bool (ts.any isSubst))]
 
 /-- `{"cmd":"split","s":text}` → the model's `helpers.split`, `runnerSplit`, `statements()`, all raw pieces -/
 def handleSplit (j : Json) : Except String Json := do
@@ -88,15 +88,9 @@ def handleScript (j : Json) : Except String Json := do
     match it with
     | .arr #[a, b] => pure ((← toksOfJson a), (← toksOfJson b))
     | _ => throw "item = [stmt, sep]")
-  let all := lead ++ (items.map (fun p => p.1 ++ p.2)).flatten
+  let all := scriptToks lead items
   let script := render all
-  let isNoise (t : Tok) : Bool := isWhite t || isComment t || isSemi t
-  let stmtOk (s : List Tok) : Bool := s.all (fun t => !isSemi t) && s.any (fun t => isCodeTok t && !isWhite t)
-  let rec sepsOk : List (List Tok × List Tok) → Bool
-    | [] => true
-    | [_] => true
-    | p :: r => p.2.any isSemi && sepsOk r
-  let hyp := wf all && level0 all && lead.all isNoise && items.all (fun p => stmtOk p.1 && p.2.all isNoise) && sepsOk items
+  let hyp := scriptHyp lead items
   pure <| Json.mkObj [
     ("script", str script),
     ("hyp", .bool hyp), ("wf", .bool (wf all)), ("level0", .bool (level0 all)), ("why", .str (level0Why all)),
